@@ -67,7 +67,7 @@ const (
 	c07InstStruct
 )
 
-var c07InstNames = []string{"int", "string", "struct"}
+var c07InstNames = []string{"int", "string", "struct", "float64", "any", "fstruct"}
 
 // nkeys words that select an instantiation
 const (
@@ -147,12 +147,24 @@ func c07Instance(nkeys int) int {
 		return c07InstString
 	case "struct":
 		return c07InstStruct
+	case "float64":
+		return c07InstFloat
+	case "any":
+		return c07InstAny
+	case "fstruct":
+		return c07InstFStruct
 	}
 	switch nkeys {
 	case c07NkString:
 		return c07InstString
 	case c07NkStruct:
 		return c07InstStruct
+	case c07NkFloat: // key types with irreflexive keys (NaN): c07_nan.go
+		return c07InstFloat
+	case c07NkAny:
+		return c07InstAny
+	case c07NkFStruct:
+		return c07InstFStruct
 	}
 	return c07InstInt
 }
@@ -167,6 +179,12 @@ func execC07(in []int64) []int64 {
 		return runC07(in, c07StringCodec())
 	case c07InstStruct:
 		return runC07(in, c07StructCodec())
+	case c07InstFloat:
+		return runC07(in, c07FloatCodec())
+	case c07InstAny:
+		return runC07(in, c07AnyCodec())
+	case c07InstFStruct:
+		return runC07(in, c07FStructCodec())
 	}
 	return runC07(in, c07IntCodec())
 }
@@ -238,7 +256,8 @@ func describeC07(in []int64) string {
 		return "malformed"
 	}
 	var sb strings.Builder
-	if inst := c07Instance(int(in[1])); inst != c07InstInt {
+	inst := c07Instance(int(in[1]))
+	if inst != c07InstInt {
 		fmt.Fprintf(&sb, "[%s keys] ", c07InstNames[inst])
 	}
 	fmt.Fprintf(&sb, "NewLRU(%d)", in[0])
@@ -250,9 +269,9 @@ func describeC07(in []int64) string {
 		}
 		switch code {
 		case c07Add:
-			fmt.Fprintf(&sb, "; Add(%d,%d)", in[i+1], in[i+2])
+			fmt.Fprintf(&sb, "; Add(%s,%d)", c07KeyText(inst, in[i+1]), in[i+2])
 		case c07Get, c07Remove:
-			fmt.Fprintf(&sb, "; %s(%d)", name, in[i+1])
+			fmt.Fprintf(&sb, "; %s(%s)", name, c07KeyText(inst, in[i+1]))
 		default:
 			fmt.Fprintf(&sb, "; %s()", name)
 		}
@@ -263,9 +282,15 @@ func describeC07(in []int64) string {
 
 // c07Shadow is a throw-away recency list used ONLY to classify generated cases
 // (non-triviality, distribution counters) and to steer the random generator
-// towards hits; it takes no part in judging.
+// towards hits; it takes no part in judging.  With nan set, the key codes
+// <= c07NaNTop are NaN keys: never found, every Add a new entry; leaked counts
+// the map entries such entries leave behind when they are evicted or removed.
 type c07Shadow struct {
 	cap                  int
+	nan                  bool
+	leaked               int
+	nanAdds, nanEvicted  int
+	leakOverCap          bool
 	keys                 []int // most recent first
 	evictions            int
 	reorderThenEvict     bool // an eviction happened after a recency-changing Get/GetOldest hit
@@ -274,7 +299,15 @@ type c07Shadow struct {
 	removeYoungestNonTop bool // RemoveYoungest on a cache with >= 2 entries
 }
 
+func (s *c07Shadow) gone(k int) { // the entry with key k leaves the list
+	if s.nan && c07IsNaNCode(k) {
+		s.leaked++
+	}
+}
 func (s *c07Shadow) idx(k int) int {
+	if s.nan && c07IsNaNCode(k) {
+		return -1
+	}
 	for i, x := range s.keys {
 		if x == k {
 			return i
@@ -294,7 +327,14 @@ func (s *c07Shadow) apply(code, k int) {
 			s.touch(i)
 		} else {
 			s.keys = append([]int{k}, s.keys...)
+			if s.nan && c07IsNaNCode(k) {
+				s.nanAdds++
+			}
 			if len(s.keys) > s.cap {
+				if ek := s.keys[len(s.keys)-1]; s.nan && c07IsNaNCode(ek) {
+					s.nanEvicted++
+				}
+				s.gone(s.keys[len(s.keys)-1])
 				s.keys = s.keys[:len(s.keys)-1]
 				s.evictions++
 				if s.reorders > 0 {
@@ -318,6 +358,7 @@ func (s *c07Shadow) apply(code, k int) {
 		}
 	case c07RemoveOldest:
 		if n := len(s.keys); n > 0 {
+			s.gone(s.keys[n-1])
 			s.keys = s.keys[:n-1]
 		}
 	case c07RemoveYoungest:
@@ -325,10 +366,15 @@ func (s *c07Shadow) apply(code, k int) {
 			if n > 1 {
 				s.removeYoungestNonTop = true
 			}
+			s.gone(s.keys[0])
 			s.keys = s.keys[1:]
 		}
 	case c07Flush:
 		s.keys = s.keys[:0]
+		s.leaked = 0
+	}
+	if s.leaked > s.cap {
+		s.leakOverCap = true
 	}
 	if len(s.keys) == s.cap {
 		s.hitFull = true
@@ -343,7 +389,7 @@ type c07Op struct{ code, k int }
 func c07Emit(g *Gen, stream string, capacity, nkeys int, ops []c07Op) {
 	w := &W{}
 	w.Int(capacity).Int(nkeys)
-	sh := &c07Shadow{cap: capacity}
+	sh := &c07Shadow{cap: capacity, nan: c07NaNInst(c07Instance(nkeys))}
 	for i, o := range ops {
 		v := 0
 		if o.code == c07Add {
@@ -360,8 +406,8 @@ func c07Emit(g *Gen, stream string, capacity, nkeys int, ops []c07Op) {
 		g.Count(stream + ":type=" + c07InstNames[inst])
 	}
 	switch stream {
-	case "random", "instances-random":
-	case "large", "instances-long":
+	case "random", "instances-random", "nan-random":
+	case "large", "instances-long", "nan-long":
 		g.Count(stream + ":" + c07Bucket("len", len(ops)))
 		g.Count(stream + ":" + c07Bucket("evictions", sh.evictions))
 	default:
@@ -381,6 +427,20 @@ func c07Emit(g *Gen, stream string, capacity, nkeys int, ops []c07Op) {
 	}
 	if capacity <= 0 {
 		g.Count("rejected-capacity")
+	}
+	if sh.nan {
+		if sh.nanAdds > 0 {
+			g.Count("nan:with-Add-of-a-NaN-key")
+		}
+		if sh.nanEvicted > 0 {
+			g.Count("nan:with-eviction-of-a-NaN-entry")
+		}
+		if sh.leaked > 0 || sh.leakOverCap {
+			g.Count("nan:with-leaked-map-entries")
+		}
+		if sh.leakOverCap {
+			g.Count("nan:with-more-leaked-map-entries-than-capacity")
+		}
 	}
 	g.Case(stream, sh.reorderThenEvict, w.Out())
 }
@@ -959,6 +1019,8 @@ func genC07(g *Gen) {
 	genC07Large(g)
 	// the same wire on LRUCache[string, string] and LRUCache[struct, string]
 	genC07Instances(g)
+	// key types with irreflexive keys: NaN as a float64 key, inside an interface, inside a struct (c07_nan.go)
+	genC07NaN(g)
 }
 
 func init() {
@@ -976,6 +1038,10 @@ func init() {
 			"instances: the same wire on LRUCache[string,string] (nkeys word 6) and LRUCache[struct{K int; S string},string] (nkeys word 7) through an injective codec whose strings are built at run time for every use (equal keys never share a backing array; zero values decode to 0), observation decoded back to integers: " +
 			"capacities 1..3 x every sequence of length <= 3 (thorough 4) over 14 calls (keys 0..2) and every sequence of length 4 (thorough 5) with keys numbered by first use, both types; instances-random: 300 (thorough 3000) seeded 300-call histories, capacity 1..16, keys -3..21 or far apart; " +
 			"instances-long: overflow-3x, reverse, update, mixed at capacities 17, 64 (thorough 256), dense and far keys, both types. " +
+			"nan (irreflexive keys; nkeys word 9 LRUCache[float64,int], 10 LRUCache[any,int], 11 LRUCache[struct{K int; F float64},int]; key codes <= -1000001 are NaNs, the code carries the payload, returned NaN keys are decoded back): " +
+			"capacities 1..3 x every sequence of length <= 4 (thorough 5) over the 14 calls with keys {0, 1, NaN} on float64 and of length <= 3 (thorough 4) over the 17 calls with keys {0, NaN#0, NaN#1, NaN#2} on any (float64 / float32 / [1]float64 NaN inside the interface) and struct; " +
+			"nan-from-leak: after capacity+1 Adds of NaN every sequence of length 3 (thorough 4); nan-random: 300 (thorough 3000) seeded 300-call histories, capacity 1..16, 10-60% of the keyed calls on 8 NaN payloads; " +
+			"nan-long: capacities 17, 64, 300 (thorough 256, 600): fill, flood of 3 x capacity NaN adds, Get/Remove of NaN, regular keys again, RemoveOldest / RemoveYoungest chains to empty, refill on the leaked map, Flush, mixed calls. " +
 			"non-trivial = at least one eviction preceded by a Get/GetOldest hit that changed the recency order",
 		Exec:     execC07,
 		Gen:      genC07,
